@@ -1,3 +1,4 @@
+import Firebolt.TransExpected
 import Firebolt.Properties.TransBase
 import Firebolt.Spec.Offsets
 import Firebolt.Generated.Source
@@ -328,11 +329,8 @@ open Firebolt.MiniGo Firebolt.TransBase
 
 /-- RequestRecovery files exactly the trimmed request of the model -/
 theorem translated_requestRecovery (σ : Env) :
-    obs Trans.requestRecovery σ =
-      ⟨[("rc.tracker.AddRecoveryRequest",
-          [σ "partitionID", (trim (σ "rc.maxRecordsToRecover") (σ "fromOffset") (σ "toOffset")).1,
-            (trim (σ "rc.maxRecordsToRecover") (σ "fromOffset") (σ "toOffset")).2])], none, false⟩ := by
-  minigo_simp [Trans.requestRecovery, trim]
+    obs Trans.requestRecovery σ = TransExpected.requestRecovery σ := by
+  minigo_simp [Trans.requestRecovery, TransExpected.requestRecovery, trim]
   split <;> simp_all
 
 /-- the per-partition body of calculateAssignmentOffsets: same start offset and same recovery request as `startOffset` -/
